@@ -189,7 +189,7 @@ def sweep_worker(kp, job):
 def run(chk):
     b = core.standard_build(chk)
     model = core.Model() if b.modelrun_ok else None
-    full = chk.tier == 'thorough' or bool(b.drift) or not b.proof_ok
+    full = chk.tier == 'thorough' or bool(b.drift) or not b.proof_ok or not b.modelrun_ok
     ndocs = core.budget(chk, full, 120, 1200)
     sweep = tokens.sweep_cells()
     gen = [tokens.gen_token(chk.rng) for _ in range(3000 if full else 500)]
